@@ -188,30 +188,36 @@ pub fn analyze(rel: &Relation) -> Analysis<'_> {
 /// clip constant feeding a noised column, searched in the sub-plan below the noise Map, by the naming convention of
 /// the rewriting (`_SUM_x` <- x, `_SUM_SQUARE_x` <- `_SQUARE_x`, `_COUNT_x` <- `_ONE_x`)
 pub fn clip_under(input: &Relation, in_col: &str) -> Option<f64> {
-    let mut cands: Vec<String> = vec![in_col.to_string()];
+    let mut cands: Vec<String> = vec![];
     if let Some(x) = in_col.strip_prefix("_SUM_") {
         cands.push(x.to_string());
         cands.push(format!("_{x}"));
     }
     if let Some(x) = in_col.strip_prefix("_COUNT_") {
         cands.push(format!("_ONE_{x}"));
-        cands.push(x.to_string());
     }
+    cands.push(in_col.to_string());
     let mut nodes = vec![];
     all_nodes(input, &mut nodes);
-    let mut found: Option<f64> = None;
-    for n in nodes {
-        let Relation::Map(m) = n else { continue };
-        for (f, e) in m.schema().iter().zip(m.projection().iter()) {
-            if cands.iter().any(|c| c == f.name()) {
-                if let Some(c) = clip_constant(e) {
-                    // should the same name be clipped twice below one noise Map, the larger constant is the weaker claim
-                    found = Some(found.map_or(c, |x: f64| x.max(c)));
+    // candidates in order of preference; should one name be clipped twice below one noise Map, the larger constant is
+    // the weaker claim
+    for cand in &cands {
+        let mut found: Option<f64> = None;
+        for n in &nodes {
+            let Relation::Map(m) = n else { continue };
+            for (f, e) in m.schema().iter().zip(m.projection().iter()) {
+                if cand == f.name() {
+                    if let Some(c) = clip_constant(e) {
+                        found = Some(found.map_or(c, |x: f64| x.max(c)));
+                    }
                 }
             }
         }
+        if found.is_some() {
+            return found;
+        }
     }
-    found
+    None
 }
 
 /// In a rendered `WITH "a" (..) AS (..), "b" (..) AS (..) SELECT ..` statement, replaces the body of the CTE `name`.
